@@ -63,6 +63,9 @@ class C07(conncheck.ConnCheck):
             out.append({'name': 't/wide', 'server': SERVER_FULL + ['text-euro', 'empty-text', 'ping-empty', 'ping-125', 'ping-ping', 'ping-text-close',
                                                                   'close-3000', 'ping-then-bad'],
                         'handshake': ['hs-ok', 'hs-deflate'], 'app': ['close'], 'depth': None, 'max_dev': 1})
+        for sel in ('poll', 'select', 'kqueue'):
+            out.append({'name': 'selector/' + sel, 'selector': sel, 'server': SERVER_FULL + ['err'], 'handshake': ['hs-ok'], 'app': ['close'],
+                        'depth': None if tier == 'thorough' else 3, 'max_dev': 1})
         # the same over TLS (records, pending(), another close path)
         for app in (APPS if tier == 'thorough' else APPS[:2]):
             out.append({'name': 'tls/%s' % app, 'url': 'wss://example.com/x', 'server': SERVER_FULL, 'handshake': ['hs-ok', 'hs-deflate'], 'app': [app],
@@ -99,6 +102,7 @@ class C07(conncheck.ConnCheck):
         elif f == 'connect-first':
             world.connect_faults = {0: OSError(111, 'Connection refused')}
         world.chooser = ch
+        world.selector_kind = cfg.get('selector', 'fake')
         with world:
             ws = W.L_websocket.WebSocket(self.url, proxies={})
             world._ws = ws
